@@ -39,13 +39,15 @@ DoInsertAt == Go /\ Total < MaxElems /\ \E a \in Slots : ~Empty(a) /\ \E pos \in
                   InsertAt(a, pos, c, p) /\ hist' = Append(hist, Op("insert_at", a, 0, pos, <<c, p>>, 0))
 DoRemoveAt == Go /\ \E a \in Slots : ~Empty(a) /\ \E pos \in 0 .. Len(seqs[a]) - 1 :
                   RemoveAt(a, pos) /\ hist' = Append(hist, Op("remove_at", a, 0, pos, 0, RemoveResult(a, pos)))
+DoMove     == Go /\ \E a \in Slots : Len(seqs[a]) >= 2 /\ \E from \in 0 .. Len(seqs[a]) - 1, to \in 0 .. Len(seqs[a]) - 1, p \in Prios :
+                  Move(a, from, to, p) /\ hist' = Append(hist, Op("move", a, 0, from, <<to, p>>, 0))
 DoRootModify == Go /\ \E a \in Slots, m \in Mods : ~Empty(a) /\ RootModify(a, m)
                   /\ hist' = Append(hist, Op("root_modify", a, 0, m, 0, 0))
 DoFirst    == Go /\ \E a \in Slots : ~Empty(a) /\ First(a) /\ hist' = Append(hist, Op("first", a, 0, 0, 0, FirstResult(a)))
 DoLast     == Go /\ \E a \in Slots : ~Empty(a) /\ Last(a) /\ hist' = Append(hist, Op("last", a, 0, 0, 0, LastResult(a)))
 DoCollect  == Go /\ \E a \in Slots : ~Empty(a) /\ Collect(a) /\ hist' = Append(hist, Op("collect", a, 0, 0, 0, 0))
 
-GNext == DoFromItem \/ DoMerge \/ DoSplitAt \/ DoSplitBy \/ DoInsertAt \/ DoRemoveAt \/ DoRootModify
+GNext == DoFromItem \/ DoMerge \/ DoSplitAt \/ DoSplitBy \/ DoInsertAt \/ DoRemoveAt \/ DoMove \/ DoRootModify
          \/ DoFirst \/ DoLast \/ DoCollect
 GSpec == GInit /\ [][GNext]_gvars
 
